@@ -751,7 +751,8 @@ func (d *Decoder) decodeStructToMap(v reflect.Value) error {
 			var kv reflect.Value
 			switch t.Key().Kind() {
 			case reflect.String:
-				kv = reflect.ValueOf(fieldNameText)
+				// The key type may be a defined type whose underlying type is string.
+				kv = reflect.ValueOf(fieldNameText).Convert(t.Key())
 			default:
 				panic(fmt.Sprintf("the key for map to hold field name must be of type string. Found: %v", t.Key().Kind().String()))
 			}
